@@ -4,7 +4,7 @@ import os, json
 import vlib
 
 TIERS = {
-    "quick": dict(runs=40, steps=70, depth=4, maxnodes=5000, mdepth=8, sweepmax=40, simnum=25,
+    "quick": dict(runs=60, steps=70, depth=4, maxnodes=5000, mdepth=8, sweepmax=40, simnum=25,
                   exh=[(2, 5, 1, 1, "{5}"), (1, 4, 1, 1, "{4}"), (3, 6, 1, 1, "{2, 6}")], adv=[(1, 4, 2, 3, "{4}")],
                   sim=[(2, 5, 1, 1, "{3, 5}", 16), (3, 7, 1, 1, "{4, 7}", 14)]),
     "thorough": dict(runs=600, steps=120, depth=6, maxnodes=60000, mdepth=10, sweepmax=400, simnum=200,
@@ -66,13 +66,13 @@ def produce(c, binhash):
         vlib.run_vh(["harbor", "--rootout", os.path.join(d, "root.ndjson")])
         with open(os.path.join(d, "MC_Harbor_run.cfg"), "w") as f:
             f.write('SPECIFICATION Spec\nCONSTANTS RootFile = "root.ndjson"  Depth = %d\n'
-                    'INVARIANTS M_Custody M_Count M_Totals M_Backed M_Floor M_Ceiling M_NonNeg\nCONSTRAINT DepthBound\nVIEW StView\nCHECK_DEADLOCK FALSE\n' % t["mdepth"])
+                    'INVARIANTS M_Custody M_Count M_Totals M_Backed M_Floor M_Ceiling M_NonNeg M_V1Held\nCONSTRAINT DepthBound\nVIEW StView\nCHECK_DEADLOCK FALSE\n' % t["mdepth"])
         actsfile = os.path.join(d, "acts.txt")
         r = vlib.model_check(d, "MC_Harbor", "MC_Harbor_run.cfg", workers=8, timeout=1500, tfile=actsfile, heap="6g")
         mstats["generated"] += r["generated"]; mstats["distinct"] += r["distinct"]
-        mstats["configs"].append("MC_Harbor depth %d: %d generated / %d distinct states, invariants M_Custody M_Count M_Totals M_Backed M_Floor M_Ceiling M_NonNeg hold" % (t["mdepth"], r["generated"], r["distinct"]))
+        mstats["configs"].append("MC_Harbor depth %d: %d generated / %d distinct states, invariants M_Custody M_Count M_Totals M_Backed M_Floor M_Ceiling M_NonNeg M_V1Held hold" % (t["mdepth"], r["generated"], r["distinct"]))
         vlib.run_vh(["harbor", "--acts", actsfile, "--out", logf, "--seed", str(c.seed), "--runs", str(t["runs"]), "--steps", str(t["steps"]),
-                     "--depth", str(t["depth"]), "--maxnodes", str(t["maxnodes"]), "--sweep", sweepfile, "--sweepmax", str(t["sweepmax"])], timeout=3000)
+                     "--depth", str(t["depth"]), "--maxnodes", str(t["maxnodes"]), "--sweep", sweepfile, "--sweepmax", str(t["sweepmax"]), "--esm"], timeout=3000)
         tr = vlib.trace_check_chunked(d, "Trace_Harbor", "Trace_Harbor.cfg", logf, chunk_nodes=12000, ptr_fields=["st.root"],
                                       workers=8 if c.tier == "thorough" else 4, timeout=3400, heap="8g")
         return dict(fails=tr["fails"], stats=tr["stats"], distinct=tr.get("distinct"), generated=tr.get("generated"), wall=tr["wall"], model=mstats)
@@ -88,9 +88,10 @@ def run(c, need):
     tr = dict(fails=[tuple(x) for x in res["fails"]], stats=res["stats"])
     c.judge(tr, logf)
     st = res["stats"]
-    for k in need:
-        if st.get(k, 0) == 0:
-            raise vlib.NoVerdict("vacuous run: antecedent counter %s = 0 (%s)" % (k, st))
+    if not c.violations:  # a formula false on a real-code state is a verdict whatever the coverage; vacuity only guards an all-green result
+        for k in need:
+            if st.get(k, 0) == 0:
+                raise vlib.NoVerdict("vacuous run: antecedent counter %s = 0 (%s)" % (k, st))
     nodes = vlib.read_log(logf)
     pick = [n for n in nodes if n["res"].get("ok") and n["a"] not in ("Init", "Block", "Price")][:400]
     c.samples = [dict(a=n["a"], args=n["args"], res=n["res"]) for n in pick[:: max(1, len(pick) // 6)]][:6]
@@ -98,8 +99,15 @@ def run(c, need):
         states=res["model"]["distinct"] + res["distinct"], transitions=res["model"]["generated"] + res["distinct"],
         traces_validated_against_impl=st.get("nodes", 0), sweep_model=res["model"]["configs"], trace_states=res["distinct"],
         antecedents=st, shared_log_cached=was_cached,
-        rule="every node of the recorded tree log (seeded multi-actor behaviours over 6 decimal/fee configurations + bounded "
-             "breadth-first exploration of a fixed action-instance set on CacheContext branches) is one TLC state of Trace_Harbor; "
+        predicted_actions=["Create", "Deposit", "Withdraw (incl. emergency-shutdown cool-off)", "Draw", "Repay", "Close", "DepositDraw", "SCreate", "SDeposit", "SWithdraw",
+                           "Block: V2 vault sweep (Sweep.tla)", "V1Sweep (Sweep.tla)", "V1Liquidate", "V1Bid (relation)", "V1Tick outside shutdown", "EsmDeposit", "EsmExecute"],
+        unpredicted_actions=["Liquidate / LiqExt / Bid / Reserve (V2 messages: monitored by the C09/C10 formulas)", "Block: V2 auction tick and settlement, esm begin blocker stages, V2 TriggerEsm",
+                             "V1Tick under emergency shutdown (close-out)", "EsmRedeem", "InterestCalc and vault steps in configurations with stability-fee accrual (interest is an environment value)"],
+        rule="every node of the recorded tree log (seeded multi-actor behaviours over 8 decimal/fee configurations incl. V1-biased and emergency-shutdown-biased runs + bounded "
+             "breadth-first explorations of fixed action-instance sets on CacheContext branches: vault model action set, first-generation liquidation/auction, emergency shutdown with and "
+             "without a stable-mint vault; MC_Sweep behaviours replayed on the V2 and the V1 sweep) is one TLC state of Trace_Harbor; "
              "formulas are evaluated on (pre-state, step, post-state) of the real keepers"),
         assumptions=["signatures/ante chain out of scope: signer = message's From", "oracle prices injected with MarketKeeper.SetTwa (environment action Price)",
-                     "kill switch toggled through the esm keeper setter (admin check is C12)"])
+                     "kill switch toggled through the esm keeper setter (admin check is C12)",
+                     "V1 begin blockers (x/liquidation, x/auction) are not wired in app.go: called directly as environment actions V1Sweep / V1Tick, like the repository's tests",
+                     "emergency-shutdown redemption relations (pay-out within the pro-rata share) are monitored in the antecedent counters only: no property of this family demands them"])
